@@ -168,6 +168,13 @@ _UNIT_REGEXP = re.compile(_UNIT_PATTERN)
 _QUAN_REGEXP = re.compile(_QUAN_PATTERN)
 
 
+def _float_or_complex_dtype(dtype):
+    """The inexact dtype of the same item size: complex stays complex"""
+    if dtype.kind == "c":
+        return dtype
+    return np.dtype("f" + str(dtype.itemsize))
+
+
 def _iterable(obj):
     try:
         len(obj)
@@ -2062,7 +2069,7 @@ class unyt_array(np.ndarray):
                         else:
                             raise UnitOperationError(ufunc, u0, u1)
                     conv, offset = u1.get_conversion_factor(u0, inp1.dtype)
-                    new_dtype = np.dtype("f" + str(inp1.dtype.itemsize))
+                    new_dtype = _float_or_complex_dtype(inp1.dtype)
                     conv = new_dtype.type(conv)
                     if (
                         offset is not None
@@ -2084,7 +2091,7 @@ class unyt_array(np.ndarray):
                         # point's unit, so the difference (not the point) is
                         # the operand that has to change scale
                         conv0, _ = u0.get_conversion_factor(u1, inp0.dtype)
-                        dtype0 = np.dtype("f" + str(inp0.dtype.itemsize))
+                        dtype0 = _float_or_complex_dtype(inp0.dtype)
                         inp0 = np.asarray(inp0, dtype=dtype0) * dtype0.type(conv0)
                     else:
                         inp1 = np.asarray(inp1, dtype=new_dtype) * conv
